@@ -198,6 +198,7 @@ def register(reg):
             for per_time in ((True, False) if cls == "SumOverTime" else (True,)):
                 _register_interp(reg, cls, step_mode, per_time)
     register_getdata(reg)
+    register_sum_info(reg)
 
 
 def _register_interp_degenerate(reg, cls):
@@ -334,3 +335,85 @@ def register_getdata(reg):
             raises=raises, must_raise={"FinamNoDataError": gd_nodata, "FinamTimeError": gd_timeerr},
             name="_get_data",
         ))
+
+
+# =================================================================================================
+# SumOverTime._get_info (C12.4): the announced output units
+# =================================================================================================
+UMUL = z3.Function("unit_product", sv.OpaqueS, sv.OpaqueS, sv.OpaqueS)
+UREDUCED = z3.Function("unit_reduced", sv.OpaqueS, sv.OpaqueS)       # units of (1 * u).to_reduced_units()
+USEC = z3.Const("unit:second", sv.OpaqueS)
+
+
+def register_sum_info(reg):
+    from .c_info import meta_of
+    from pyvc.sv import TObj
+
+    def units_of_info(ctx, i):
+        m = meta_of(ctx, i)
+        return m.val(sv.const_str("units").e)
+
+    def post(ctx, r, per_time):
+        a = ctx.self
+        in_i = strip_none(ctx.get(a, "_input_info")).e
+        uin = units_of_info(ctx, in_i)
+        uout = units_of_info(ctx, r.e)
+        ue = lambda v: strip_none(v).e if not isinstance(v, sv.SNone) else z3.Const("units:none", sv.OpaqueS)
+        if per_time:
+            return {"per-time sums: input units times seconds, in reduced form (e.g. mm/d -> mm)":
+                    And(Not(is_none(uout)), ue(uout) == UREDUCED(UMUL(ue(uin), USEC)))}
+        return {"absolute sums keep the input units": sv.value_eq(uout, uin)}
+
+    for per_time in (True, False):
+        reg.add(Contract(
+            f"{TI}.SumOverTime._get_info", self_cls="SumOverTime", props=["C12.4", "C07.4"], params={"info": TRef("Info")}, result=TRef("Info"),
+            requires=lambda ctx, per_time=per_time: And(ctx.info.e > 0, ctx.get(ctx.self, "_per_time").e == z3.BoolVal(per_time),
+                                                        Not(is_none(ctx.get(ctx.self, "_source")))),
+            ensures=lambda ctx, r, per_time=per_time: post(ctx, r, per_time), modifies=None,
+            raises={"FinamNoDataError": lambda ctx: z3.BoolVal(True), "FinamMetaDataError": lambda ctx: z3.BoolVal(True)},
+            name=f"_get_info<per_time={per_time}>", primary=False, tags=["unit-algebra"],
+            fields={"meta": sv.TDict(sv.Str, TOpt(TObj("units")))},
+        ))
+
+
+def install(ex):
+    def is_unit(v):
+        return isinstance(v, sv.SObj) and v.okind == "units"
+
+    def tagged():
+        c = ex.cur_contract
+        return c is not None and "unit-algebra" in c.tags
+
+    old_unit = ex.ext_models.get("pint.application_registry.Unit")
+
+    def unit_ctor(ex, path, args, kwargs, node):
+        if tagged() and args and isinstance(args[0], sv.SStr) and args[0].py == "s":
+            return sv.SObj(USEC, "units")
+        return old_unit(ex, path, args, kwargs, node)
+
+    ex.ext_models["pint.application_registry.Unit"] = unit_ctor
+
+    def binop(ex, op, a, b, path, node):
+        import ast
+        if not tagged() or not isinstance(op, ast.Mult):
+            return None
+        if isinstance(a, sv.SUnion):
+            a = ex.expect(a, sv.SObj, path, node, what="none")
+        if is_unit(a) and is_unit(b):
+            return sv.SObj(UMUL(a.e, b.e), "units")
+        if isinstance(a, (sv.SReal, sv.SInt)) and is_unit(b):
+            return sv.SPay(sv.to_real(a.e), b)
+        return None
+
+    ex.hooks.setdefault("binop", []).insert(0, binop)
+
+    def attr(ex, base, a, path, node):
+        if tagged() and isinstance(base, sv.SPay) and is_unit(getattr(base, "units", None)):
+            if a == "to_reduced_units":
+                return sv.SPy("libfn", lambda ex, p, args, k, n, base=base: sv.SPay(z3.Function("reduced_magnitude", sv.RealS, sv.OpaqueS, sv.RealS)(base.e, base.units.e),
+                                                                                    sv.SObj(UREDUCED(base.units.e), "units")))
+            if a == "units":
+                return base.units
+        return None
+
+    ex.hooks.setdefault("getattr", []).insert(0, attr)
